@@ -138,6 +138,49 @@ structure World.SupU (w : World) (gen : Bool) : Prop where
   fieldsOK : ∀ c, ∀ f ∈ w.fields c, ∀ t, f.ty = some t → t.supU gen = true
   enumLeaf : ∀ e, ∀ v ∈ w.members e, v.isLeafB = true
 
+/-! ### recursion through TypedDicts
+
+A TypedDict is a plain dict at run time.  When hook generation meets a reference cycle it falls back to late
+binding on the *run-time class*, which for a TypedDict payload is `dict`: the nested levels of a
+self-referential TypedDict are then not unstructured as the TypedDict (recorded finding F39).  The model does
+not describe that fallback, so the C03 theorems are stated for class tables in which no TypedDict lies on a
+reference cycle (`tdAcyclicB`); recursive attrs classes and dataclasses are in scope. -/
+
+mutual
+/-- classes (attrs/dataclass/TypedDict alike) mentioned in a type -/
+def Ty.refs : Ty → List Nat
+  | .cls c => [c]
+  | .td c => [c]
+  | .coll _ t => t.refs
+  | .opt t => t.refs
+  | .wrap _ t => t.refs
+  | .tupleHet ts => Ty.refsL ts
+  | .map _ k v => k.refs ++ v.refs
+  | _ => []
+termination_by structural t => t
+def Ty.refsL : List Ty → List Nat
+  | [] => []
+  | t :: ts => t.refs ++ Ty.refsL ts
+termination_by structural ts => ts
+end
+
+def World.succ (w : World) (c : Nat) : List Nat :=
+  (w.fields c).flatMap (fun f => match f.ty with | Option.none => [] | some t => t.refs)
+
+/-- classes reachable from the frontier in at most `fuel` further steps -/
+def World.reach (w : World) : Nat → List Nat → List Nat → List Nat
+  | 0, _, seen => seen
+  | fuel + 1, frontier, seen =>
+    let next := (frontier.flatMap w.succ).eraseDups.filter (fun c => !seen.contains c)
+    if next.isEmpty then seen else w.reach fuel next (seen ++ next)
+
+def World.isTD (w : World) (c : Nat) : Bool :=
+  match w.cls? c with | some k => k.kind == .typeddict | Option.none => false
+
+/-- no TypedDict class can reach itself through field types -/
+def World.tdAcyclicB (w : World) : Bool :=
+  (List.range w.classes.length).all (fun c => !w.isTD c || !(w.reach w.classes.length (w.succ c) (w.succ c)).contains c)
+
 /-- executable version of `World.SupU` (used by the driver to report whether a generated case satisfies the
 theorems' hypotheses; `World.supUB_sound` proves it implies `World.SupU`) -/
 def World.supUB (w : World) (gen : Bool) : Bool :=
